@@ -258,6 +258,10 @@ func reopenCheck(env *dbx.Env, keys []string) string {
 func c06Window(tier string, seed int64, idx int, scratch string) rt.CaseResult {
 	var c rt.CaseResult
 	rt.SetWatchdogLimit(25 * time.Second)
+	if idx%5 == 4 {
+		return c06RotationWindow(seed, idx, scratch)
+	}
+	idx = idx/5*4 + idx%5 // the four windows below keep their old numbering
 	env, err := dbx.Open(dbx.Options{Mode: dbx.Inline, Dir: filepath.Join(scratch, "db")})
 	if err != nil {
 		c.Violate("open-failed", err.Error(), nil)
@@ -333,5 +337,56 @@ func c06StoreWindow(seed int64, idx int, env *dbx.Env, tr *conc.Tracer) rt.CaseR
 		replay["history"] = ops
 		c.Violate("state-changed-by-reopen-after-concurrent-run", d, replay)
 	}
+	return c
+}
+
+// c06RotationWindow: the only directory of the root is full. Writer A replaces it (removes it
+// from the directory repository, then creates a new one); writer B has read the roots before
+// the removal and takes its snapshot of the directories between A's removal and A's creation.
+// On a tree where the directory selection is not atomic B finds no directory at all and its
+// Set fails with ErrNoFreeSpace although there is room; where it is atomic B cannot get there
+// (the gate times out: order not reachable).
+func c06RotationWindow(seed int64, idx int, scratch string) rt.CaseResult {
+	var c rt.CaseResult
+	window := "A.full-directory-removed<B.directory-snapshot<A.new-directory-created"
+	env, err := dbx.Open(dbx.Options{Mode: dbx.Inline, Dir: filepath.Join(scratch, "db"), MaxDirCount: 100, MaxDirExplicit: true})
+	if err != nil {
+		c.Violate("open-failed", err.Error(), nil)
+		return c
+	}
+	defer env.Close()
+	tr := conc.NewTracer(true)
+	tr.Install()
+	defer conc.Uninstall()
+	tag := fmt.Sprintf("r%d-", idx)
+	p := program{Keys: []string{"a", "b"}}
+	for i := 0; i < 100; i++ { // exactly as many entries as one directory may hold
+		p.Init = append(p.Init, progOp{Kind: "set", Tx: -1, Key: fmt.Sprintf("fill%03d", i), Tag: fmt.Sprintf("%sf%d", tag, i), Len: 3})
+	}
+	a := []progOp{{Kind: "sleep", Len: 20000}, {Kind: "set", Tx: -1, Key: "a", Tag: tag + "A", Len: 20}, {Kind: "get", Tx: -1, Key: "a"}}
+	b := []progOp{{Kind: "set", Tx: -1, Key: "b", Tag: tag + "B", Len: 20}, {Kind: "get", Tx: -1, Key: "b"}}
+	p.Clients = [][]progOp{a, b}
+	var gA, gB *conc.Gate
+	ops := execProgram(env, tr, p, func(client int, gid int64) {
+		if client == 1 {
+			gB = tr.AddGate(&conc.Gate{WaitPoint: "dir.get.roots", WaitG: gid, SigPoint: "dir.get.removed", NotSigG: gid, Timeout: 300 * time.Millisecond})
+		} else {
+			gA = tr.AddGate(&conc.Gate{WaitPoint: "dir.get.removed", WaitG: gid, SigPoint: "dir.get.snapshot", NotSigG: gid, Timeout: 300 * time.Millisecond})
+		}
+	})
+	out := gB.Outcome() + "/" + gA.Outcome()
+	c.Evals = int64(len(ops))
+	c.AddDistinct("window:" + window + "/" + out)
+	c.Observe("window outcomes", window+" -> B:"+gB.Outcome()+" A:"+gA.Outcome())
+	c.Count("window_attempts", 1)
+	replay := map[string]any{"seed": seed, "case": idx, "window": window, "gates": out}
+	p.Init = nil // 100 filler writes: not part of the history that is checked
+	var hist []conc.Op
+	for _, o := range ops {
+		if !strings.HasPrefix(o.Key, "fill") {
+			hist = append(hist, o)
+		}
+	}
+	checkHistory(&c, hist, tr.Events(), p, false, replay)
 	return c
 }
